@@ -9,14 +9,16 @@ from vk import gen
 ID = "C16"
 LEVEL = "exploration"
 RULE = (
-    "Hypothesis draws a layout plan per chromosome (1..5 chromosomes incl. X): a sequence of blocks, each a uniquely "
-    "named gene of 1..10 bins optionally interrupted strictly inside by Antitarget/ignored-name bins, or an intergenic "
-    "stretch of 0..6 bins named from {Antitarget, Background, -, ., CGH}, so stretches occur before, between and after "
-    "genes (incl. single trailing bins and gene-less chromosomes); log2/weight/depth from a seeded RNG around per-gene "
-    "levels, null-coverage bins, default or stepped row index, optional segments with breakpoints at bin edges inside "
-    "and between genes, threshold, min_probes, skip_low, sex options. Oracle: the expected grouping is read off the "
-    "plan; genemetrics / squash_genes / breaks rows are re-derived from it. Non-trivial = a chromosome with >= 2 genes "
-    "and an intergenic stretch, or a non-default index; distinct = distinct case JSON."
+    "Hypothesis draws a layout plan per chromosome (1..5 chromosomes incl. X): a sequence of blocks, each a "
+    "uniquely named gene of 1..10 bins optionally interrupted strictly inside by Antitarget/ignored-name bins, or "
+    "an intergenic stretch of 0..6 bins named from {Antitarget, Background, -, ., CGH}, so stretches occur "
+    "before, between and after genes (incl. single trailing bins and gene-less chromosomes); log2/weight/depth "
+    "from a seeded RNG around per-gene levels, null-coverage bins, default or stepped row index, optional "
+    "segments with breakpoints at bin edges inside and between genes, threshold, min_probes, skip_low, sex "
+    "options. A third of the cases sit at 2.4e8 / beyond 2^31; every weight of a case carries a common factor (1, "
+    "1e-10, 1e-12, 1e6). Oracle: the expected grouping is read off the plan; genemetrics / squash_genes / breaks "
+    "rows are re-derived from it. Non-trivial = a chromosome with >= 2 genes and an intergenic stretch, or a "
+    "non-default index; distinct = distinct case JSON."
 )
 QUICK = {"examples": 2400, "shards": 16, "budget_s": 300}
 THOROUGH = {"examples": 24000, "shards": 16, "budget_s": 2400}
